@@ -42,6 +42,7 @@ import (
 type cwScenario struct {
 	kind   string // call | notif
 	auth   string // none | grant | deny | block
+	ts     string // the handler's token source: "" = fine | tserr | tokerr | invalidgrant
 	cancel bool
 	a1, a2 string
 }
@@ -51,7 +52,11 @@ func (s *cwScenario) op() string {
 	if s.cancel {
 		c = 1
 	}
-	return fmt.Sprintf("wscn kind=%s auth=%s cancel=%d a1=%s a2=%s", s.kind, s.auth, c, s.a1, s.a2)
+	ts := ""
+	if s.ts != "" {
+		ts = " ts=" + s.ts
+	}
+	return fmt.Sprintf("wscn kind=%s auth=%s%s cancel=%d a1=%s a2=%s", s.kind, s.auth, ts, c, s.a1, s.a2)
 }
 
 func cwParseScenario(line string) (*cwScenario, error) {
@@ -67,6 +72,10 @@ func cwParseScenario(line string) (*cwScenario, error) {
 			s.kind = v
 		case "auth":
 			s.auth = v
+		case "ts":
+			if v != "fine" {
+				s.ts = v
+			}
 		case "cancel":
 			s.cancel = v == "1"
 		case "a1":
@@ -85,6 +94,8 @@ func cwParseScenario(line string) (*cwScenario, error) {
 
 type cwAuth struct {
 	mode    string
+	ts      string // how the token source behaves while `faulty` is set
+	faulty  bool
 	mu      sync.Mutex
 	granted bool
 	calls   int
@@ -98,8 +109,24 @@ func (h *cwAuth) TokenSource(context.Context) (oauth2.TokenSource, error) {
 	if h.granted {
 		return oauth2.StaticTokenSource(&oauth2.Token{AccessToken: "verif-token"}), nil
 	}
+	if h.faulty {
+		switch h.ts {
+		case "tserr":
+			return nil, errCwTokenSource
+		case "tokerr":
+			return cwFailingSource{errCwTokenSource}, nil
+		case "invalidgrant":
+			return cwFailingSource{&oauth2.RetrieveError{ErrorCode: "invalid_grant"}}, nil
+		}
+	}
 	return nil, nil
 }
+
+var errCwTokenSource = errors.New("verif-token-source-failed")
+
+type cwFailingSource struct{ err error }
+
+func (f cwFailingSource) Token() (*oauth2.Token, error) { return nil, f.err }
 
 func (h *cwAuth) Authorize(ctx context.Context, req *http.Request, resp *http.Response) error {
 	h.mu.Lock()
@@ -144,6 +171,12 @@ func (b *cwCutBody) Read(p []byte) (int, error) {
 	return 0, errCsCut
 }
 func (b *cwCutBody) Close() error { return nil }
+
+// cwHangBody: the body does not come; Read returns when the request's context ends
+type cwHangBody struct{ ctx context.Context }
+
+func (b *cwHangBody) Read(p []byte) (int, error) { <-b.ctx.Done(); return 0, b.ctx.Err() }
+func (b *cwHangBody) Close() error               { return nil }
 
 func (sv *cwServer) resp(req *http.Request, status int, ctype, sid, body string) *http.Response {
 	h := http.Header{}
@@ -194,6 +227,10 @@ func (sv *cwServer) answer(req *http.Request, a string, idJSON string) (*http.Re
 		case "jsoncut":
 			r := sv.resp(req, 200, "application/json", sid, "")
 			r.Body = &cwCutBody{data: []byte(result[:len(result)/2])}
+			return r, nil
+		case "jsonhang":
+			r := sv.resp(req, 200, "application/json", sid, "")
+			r.Body = &cwHangBody{ctx: req.Context()}
 			return r, nil
 		case "sse":
 			rec := httptest.NewRecorder()
@@ -273,6 +310,8 @@ func cwErrKind(err error) string {
 	switch {
 	case strings.Contains(m, errCwDenied.Error()):
 		return "auth"
+	case strings.Contains(m, errCwTokenSource.Error()):
+		return "token-source"
 	case strings.Contains(m, "verif-rpc-error"):
 		return "rpc"
 	case errors.Is(err, ErrSessionMissing) || strings.Contains(m, ErrSessionMissing.Error()):
@@ -328,7 +367,7 @@ func cwRun(t *testing.T, s *cwScenario) (res cwResult) {
 			client := NewClient(&Implementation{Name: "verif", Version: "0"}, nil)
 			tr := &StreamableClientTransport{Endpoint: "http://verif.invalid/mcp", HTTPClient: &http.Client{Transport: sv}}
 			if s.auth != "none" {
-				ah = &cwAuth{mode: s.auth}
+				ah = &cwAuth{mode: s.auth, ts: s.ts}
 				tr.OAuthHandler = ah
 			}
 			ctx, cancel := context.WithCancel(context.Background())
@@ -342,6 +381,11 @@ func cwRun(t *testing.T, s *cwScenario) (res cwResult) {
 			sv.mu.Lock()
 			sv.phase = "test"
 			sv.mu.Unlock()
+			if ah != nil {
+				ah.mu.Lock()
+				ah.faulty = true
+				ah.mu.Unlock()
+			}
 			callCtx, cancelCall := context.WithCancel(ctx)
 			defer cancelCall()
 			if s.cancel {
@@ -371,6 +415,11 @@ func cwRun(t *testing.T, s *cwScenario) (res cwResult) {
 				res.end = e
 			default:
 				res.end = "hang"
+			}
+			if ah != nil {
+				ah.mu.Lock()
+				ah.faulty = false
+				ah.mu.Unlock()
 			}
 			sv.mu.Lock()
 			sv.phase = "probe"
@@ -421,6 +470,9 @@ func cwEmit(out *verifOut, cs string, s *cwScenario, r cwResult, extra ...string
 		}
 		return a
 	}
+	if s.ts != "" {
+		extra = append(extra, "ts-"+s.ts)
+	}
 	tags := append([]string{"kind-" + s.kind, "auth-" + s.auth, "a1-" + cls(s.a1), fmt.Sprintf("cancel-%v", s.cancel)}, extra...)
 	if r.posts >= 2 {
 		tags = append(tags, "a2-"+cls(s.a2), "retried")
@@ -445,7 +497,7 @@ func cwEmit(out *verifOut, cs string, s *cwScenario, r cwResult, extra ...string
 
 func cwAnswers() []string {
 	return []string{"terr", "hang", "st401", "st403", "st401r", "st503", "st500r", "st429", "st404", "st404r", "st400", "st405", "st502",
-		"ok:json:s", "ok:json:x", "ok:jsonbad:s", "ok:jsoncut:s", "ok:sse:s", "ok:sse:x", "ok:other:s"}
+		"ok:json:s", "ok:json:x", "ok:jsonbad:s", "ok:jsoncut:s", "ok:jsonhang:s", "ok:sse:s", "ok:sse:x", "ok:other:s"}
 }
 
 func cwIsAuthStatus(a string) bool { return strings.HasPrefix(a, "st401") || strings.HasPrefix(a, "st403") }
@@ -483,6 +535,24 @@ func cwGenerate(emit func(*cwScenario, string)) {
 			}
 		}
 	}
+	// the token source fails / has no valid grant while the message is sent: every handler x ctx x a sample of first answers
+	for _, kind := range []string{"call", "notif"} {
+		for _, auth := range []string{"grant", "deny", "block"} {
+			for _, ts := range []string{"tserr", "tokerr", "invalidgrant"} {
+				for _, cancel := range []bool{false, true} {
+					for _, a1 := range []string{"ok:json:s", "st401", "st403r", "st503", "hang", "terr", "st404"} {
+						a2s := []string{"terr"}
+						if auth == "grant" && ts == "invalidgrant" && cwIsAuthStatus(a1) {
+							a2s = []string{"ok:json:s", "ok:sse:s", "hang", "st401", "st503"}
+						}
+						for _, a2 := range a2s {
+							put(&cwScenario{kind: kind, auth: auth, ts: ts, cancel: cancel, a1: a1, a2: a2}, "wt")
+						}
+					}
+				}
+			}
+		}
+	}
 	rng := verifRng(4242)
 	n := verifN(300, 3000)
 	if limit >= 0 {
@@ -507,6 +577,9 @@ func cwGenerate(emit func(*cwScenario, string)) {
 	for i := 0; i < n; i++ {
 		s := &cwScenario{kind: []string{"call", "notif"}[rng.Intn(2)], auth: []string{"none", "grant", "grant", "deny", "block"}[rng.Intn(5)],
 			cancel: rng.Intn(2) == 0, a1: rnd(), a2: rnd()}
+		if s.auth != "none" && rng.Intn(4) == 0 {
+			s.ts = []string{"tserr", "tokerr", "invalidgrant"}[rng.Intn(3)]
+		}
 		if s.auth == "grant" && rng.Intn(2) == 0 {
 			s.a1 = []string{"st401", "st403", "st401r", "st403r"}[rng.Intn(4)]
 		}
